@@ -343,6 +343,13 @@ def r05_7(ctx: Ctx):
     return obs
 
 
+def r05_8(ctx: Ctx):
+    """R05.8 no objective evaluation outside the metaepoch protocol: sprout mechanisms, stop conditions and reports are evaluation-free, so nothing evaluates after the GSC was observed."""
+    from .common import who_may_evaluate
+
+    return who_may_evaluate(ctx, "R05.8")
+
+
 RULES = [
     ("R05.1", r05_1, 1),
     ("R05.2", r05_2, 2),
@@ -350,4 +357,5 @@ RULES = [
     ("R05.4", r05_4, 7),
     ("R05.5", r05_5, 6),
     ("R05.7", r05_7, 9),
+    ("R05.8", r05_8, 1),
 ]
